@@ -266,7 +266,7 @@ def build_data(ch, tier):
             # string table: strings with chosen lengths; queries at starts and inside
             strs = []
             for _ in range(ch.int(1, 8)):
-                ln = ch.choice([0, 1, 5, 62, 63, 64, 65, 127, 128, 129, ch.int(0, 300)])
+                ln = ch.choice([0, 1, 5, 62, 63, 64, 65, 127, 128, 129, ch.int(0, 300), 639, 640, 641, 5000])
                 strs.append(utf8_string(ch, ln))
             lead = ch.choice([b'\0', b'\0', b''])
             blob = lead
